@@ -298,7 +298,11 @@ fn raw_field(ty: u16, flen: usize, body: &[u8], pad: bool) -> Vec<u8> {
 }
 
 fn body_len(rng: &mut Rng, ver: u8) -> usize {
-    let l = match rng.below(16) {
+    let l = match rng.below(19) {
+        // large bodies: around the 512-byte Bloom filter size, and up to half the packet limit
+        16 => rng.usize(509, 516),
+        17 => *rng.pick(&[508usize, 512, 516, 1000, 1020, 1024]),
+        18 => *rng.pick(&[1000usize, 2000, 2040, 3000]),
         0 => 0,
         1 => rng.usize(1, 3),
         2 => 4,
@@ -382,7 +386,11 @@ fn gen_field(rng: &mut Rng, ver: u8) -> Vec<u8> {
 fn gen_fields(rng: &mut Rng, ver: u8, n: usize) -> Vec<u8> {
     let mut v = vec![];
     for _ in 0..n {
-        v.extend(gen_field(rng, ver));
+        let f = gen_field(rng, ver);
+        // keep whole packets within the 4096-byte limit of the property's quantifier
+        if v.len() + f.len() <= 3000 {
+            v.extend(f);
+        }
     }
     v
 }
@@ -441,6 +449,45 @@ struct Built {
 
 fn rand_key(rng: &mut Rng, n: usize) -> Vec<u8> {
     rng.bytes(n)
+}
+
+/// A cookie sealed under server key `skey` (wire id `id`) whose plaintext is NOT `algorithm(2) s2c c2s`:
+/// class 0 shorter by one, 1 longer by one, 2 longer by 16, 3 longer by 64, 4 empty, 5 a single byte,
+/// 6 unknown algorithm id with the right size, 7 right algorithm with the other algorithm's key width,
+/// 8 only the algorithm id.  Returns the cookie and its oracle line.
+fn odd_cookie(rng: &mut Rng, skey: &[u8], id: u32, class: u64, klen: usize, s2c: &[u8], c2s: &[u8]) -> (Vec<u8>, String) {
+    let alg: u16 = if klen == 32 { 15 } else { 17 };
+    let mut pt = alg.to_be_bytes().to_vec();
+    pt.extend_from_slice(s2c);
+    pt.extend_from_slice(c2s);
+    match class {
+        0 => {
+            pt.pop();
+        }
+        1 => pt.push(rng.next_u64() as u8),
+        2 => pt.extend(rng.bytes(16)),
+        3 => pt.extend(rng.bytes(64)),
+        4 => pt.clear(),
+        5 => pt.truncate(1),
+        6 => {
+            let other = *rng.pick(&[0u16, 1, 14, 16, 18, 30, 0xffff]);
+            pt[0..2].copy_from_slice(&other.to_be_bytes());
+        }
+        7 => {
+            let other_w = if klen == 32 { 64 } else { 32 };
+            pt.truncate(2);
+            pt.extend(rng.bytes(2 * other_w));
+        }
+        _ => pt.truncate(2),
+    }
+    let cipher = cipher_from_key(skey).expect("server keys are 64 bytes");
+    let (nonce, ct) = seal(cipher.as_ref(), &[], &pt);
+    let mut cookie = id.to_be_bytes().to_vec();
+    cookie.extend_from_slice(&(ct.len() as u16).to_be_bytes());
+    cookie.extend_from_slice(&nonce);
+    cookie.extend_from_slice(&ct);
+    let line = oracle_line(skey, &nonce, &[], &ct, &pt);
+    (cookie, line)
 }
 
 /// a packet built field by field, with its key context and oracle table
@@ -516,6 +563,16 @@ fn build_packet(rng: &mut Rng) -> Built {
     };
     if let Some((ks, keys, _off, primary)) = &keyset {
         for _ in 0..n_cookies {
+            if rng.chance(1, 3) {
+                // a cookie that AUTHENTICATES under a current or old server key but whose plaintext has the wrong size
+                let ki = rng.below(keys.len() as u64) as usize;
+                let class = rng.below(9);
+                let (cookie, line) = odd_cookie(rng, &keys[ki], (ki as u32).wrapping_add(*_off), class, klen, &s2c, &c2s);
+                setup.push(line);
+                let l = cookie.len();
+                bytes.extend(raw_field(T_COOKIE, 4 + nm4(l), &cookie, true));
+                continue;
+            }
             let alg = if klen == 32 { AeadAlgorithm::AeadAesSivCmac256 } else { AeadAlgorithm::AeadAesSivCmac512 };
             let dc = DecodedServerCookie {
                 algorithm: alg,
@@ -795,6 +852,34 @@ fn corpus_c23() -> Vec<Vec<String>> {
             format!("ctx key {}", hex(&key)),
             format!("parse {}", hex(&w)),
         ]);
+    }
+    // seeded-change witness shape: cookies that authenticate under the server key with a plaintext of the wrong
+    // size (every class, both algorithms), followed by an authenticator sealed under the would-be c2s key
+    {
+        let mut rng = Rng::new(0xC00C1E);
+        let skey = vec![0x5Au8; 64];
+        for klen in [32usize, 64] {
+            for class in 0..9u64 {
+                let s2c = vec![0x21u8; klen];
+                let c2s = vec![0x43u8; klen];
+                let (cookie, line) = odd_cookie(&mut rng, &skey, 7, class, klen, &s2c, &c2s);
+                let mut w = hdr4.clone();
+                w.extend(raw_field(T_UID, 36, &[0x55u8; 32], true));
+                let l = cookie.len();
+                w.extend(raw_field(T_COOKIE, 4 + nm4(l), &cookie, true));
+                let session = cipher_from_key(&c2s).unwrap();
+                let (nonce, ct) = seal(session.as_ref(), &w, &[]);
+                let auth_line = oracle_line(&c2s, &nonce, &w, &ct, &[]);
+                w.extend(enc_field(&nonce, &ct));
+                v.push(vec![
+                    draftver_op(),
+                    line,
+                    auth_line,
+                    format!("ctx keyset off=7 keys={}", hex(&skey)),
+                    format!("parse {}", hex(&w)),
+                ]);
+            }
+        }
     }
     for c in cases {
         for ctx in ["ctx none".to_string(), format!("ctx key {}", hex(&[3u8; 32])), format!("ctx keyset off=1 keys={}", hex(&[0u8; 64]))] {
@@ -1206,7 +1291,10 @@ fn build_plain(rng: &mut Rng) -> Vec<u8> {
                 b.extend(&draft);
             }
             if i < n {
-                b.extend(gen_field(rng, 5));
+                let f = gen_field(rng, 5);
+                if b.len() + f.len() <= 4000 {
+                    b.extend(f);
+                }
             }
         }
         if rng.chance(1, 10) {
@@ -1215,7 +1303,10 @@ fn build_plain(rng: &mut Rng) -> Vec<u8> {
         }
     } else {
         for _ in 0..n {
-            b.extend(gen_field(rng, 4));
+            let f = gen_field(rng, 4);
+            if b.len() + f.len() <= 4000 {
+                b.extend(f);
+            }
         }
         // v4: what follows the fields is the MAC (at most 28 bytes stop the streamer)
         match rng.below(6) {
@@ -1297,6 +1388,21 @@ fn corpus_c24() -> Vec<Vec<String>> {
     w.extend(raw_field(0x1234, 5, &[1], true));
     w.extend(raw_field(T_RRESP, 7, &[1, 2, 3], true));
     cases.push(w);
+    // large bodies for every field kind (sizes around the 512-byte Bloom filter, 1000, 2000), v5 and v4
+    for &l in &[509usize, 512, 513, 516, 1000, 2000] {
+        for &ty in &[T_RRESP, T_RREQ, T_PAD, 0x1234u16, T_UID, T_COOKIE, T_PH] {
+            let body = if ty == T_PH { vec![0u8; l] } else { (0..l).map(|i| (i * 7 + 1) as u8).collect::<Vec<u8>>() };
+            let mut w = hdr(0x2b);
+            w.extend(&draft);
+            w.extend(raw_field(ty, 4 + l, &body, true));
+            cases.push(w);
+            if l % 4 == 0 {
+                let mut w = hdr(0x23);
+                w.extend(raw_field(ty, 4 + l, &body, true));
+                cases.push(w);
+            }
+        }
+    }
     cases.into_iter().map(|c| vec![draftver_op(), format!("rt {}", hex(&c))]).collect()
 }
 
